@@ -556,7 +556,15 @@ func updateNodeField(src interface{}, targetName string, target interface{}) int
 		return src
 	}
 	srcFieldValue := srcVal.FieldByName(targetName)
-	if !srcFieldValue.IsValid() || srcFieldValue.Kind() != targetVal.Kind() {
+	if !srcFieldValue.IsValid() || !targetVal.IsValid() {
+		return src
+	}
+	if srcFieldValue.Kind() == reflect.Slice {
+		if targetVal.Kind() != reflect.Slice {
+			return src
+		}
+	} else if !targetVal.Type().AssignableTo(srcFieldValue.Type()) {
+		// (a field of interface type - Argument.Value, VariableDefinition.Type ... - takes any node implementing it)
 		return src
 	}
 
